@@ -26,20 +26,39 @@ def jobs(tier):
 # ---- photon mutex on the kernel contract K (sequentialised threads, cooperative scheduling + symbolic timeout/interrupt events)
 KSTUB = ['--thread', '^@thread_entry_',
          '--blocking', r'^@_ZN6photonL19thread_usleep_deferENS_7TimeoutEPNS_11thread_listEPFvPvES3_$=K_usleep_defer_begin,K_usleep_end',
-         '--blocking', r'^@_ZN6photonL12thread_usleepENS_7TimeoutEPNS_11thread_listE$=K_usleep_begin,K_usleep_end',
-         '--blocking', r'^@_ZN6photon12thread_usleepENS_7TimeoutE$=K_usleep_public_begin,K_usleep_end',
+         '--blocking', r'^@_ZN6photonL13thread_usleepENS_7TimeoutEPNS_11thread_listE$=K_usleep_begin,K_usleep_end',
+         '--blocking', r'^@_ZN6photon13thread_usleepENS_7TimeoutE$=K_usleep_public_begin,K_usleep_end',
          '--blocking', r'^@_ZN6photon12thread_yieldEv$=K_yield_begin,K_yield_end',
          '--map', r'^@_ZN6photonL26prelocked_thread_interruptEPNS_6threadEi$=K_prelocked_interrupt']
 KCLANG = ['-mllvm', '-inline-threshold=100000000'] + sum([['-mllvm', '-force-attribute=%s:noinline' % f] for f in [
-    '_ZN6photonL19thread_usleep_deferENS_7TimeoutEPNS_11thread_listEPFvPvES3_', '_ZN6photonL12thread_usleepENS_7TimeoutEPNS_11thread_listE',
-    '_ZN6photon12thread_usleepENS_7TimeoutE', '_ZN6photon12thread_yieldEv', '_ZN6photonL26prelocked_thread_interruptEPNS_6threadEi']], [])
+    '_ZN6photonL19thread_usleep_deferENS_7TimeoutEPNS_11thread_listEPFvPvES3_', '_ZN6photonL13thread_usleepENS_7TimeoutEPNS_11thread_listE',
+    '_ZN6photon13thread_usleepENS_7TimeoutE', '_ZN6photon12thread_yieldEv', '_ZN6photonL26prelocked_thread_interruptEPNS_6threadEi']], [])
 KROOTS = ['^@thread_entry_', '^@K_', '^@world_']
 
 def kjob(name, src, nt, slices, defines, mode='coop', timeout=900, desc='', unwind=4, mem_gb=12):
     return Job(name, src, 'sched', roots=KROOTS, defines=['NT=%d' % nt, 'KN=%d' % nt] + defines, clang=KCLANG,
                ir2c=KSTUB + (['--cs-none'] if mode == 'coop' else ['--cs-atomic-only']), shims=['libc.c', 'sched.c'],
-               cbmc=['-DNT=%d' % nt, '-DSLICES=%d' % slices], unwind=unwind, unwindset=['f_sched.1:%d' % (slices + 1)], nochecks=False, timeout=timeout, mem_gb=mem_gb,
+               cbmc=['-DNT=%d' % nt, '-DSLICES=%d' % slices], unwind=max(unwind, nt + 1), unwindset=['f_sched.1:%d' % (slices + 1)], nochecks=False, timeout=timeout, mem_gb=mem_gb,
                desc=desc, bounds='%d threads, <= %d execution slices, %s scheduling' % (nt, slices, 'cooperative (switch at blocking calls)' if mode == 'coop' else 'pre-emptive at atomic operations'))
+
+# ---- contract-level sync layer (rt/ksync.h): clients of mutex / cv / semaphore
+KSYNC_IR2C = ['--thread', '^@thread_entry_',
+    '--blockingc', r'^@_ZN6photon5mutex4lockENS_7TimeoutE$=K_mutex_lock_begin,K_mutex_lock_end',
+    '--map', r'^@_ZN6photon5mutex8try_lockEv$=K_mutex_try_lock', '--map', r'^@_ZN6photon5mutex6unlockEv$=K_mutex_unlock',
+    '--blockingc', r'^@_ZN6photon18condition_variable4waitEPNS_5mutexENS_7TimeoutE$=K_cv_wait_begin,K_cv_wait_end',
+    '--blockingc', r'^@_ZN6photon18condition_variable4waitEPNS_8spinlockENS_7TimeoutE$=K_cv_wait_spin_begin,K_cv_wait_end',
+    '--map', r'^@_ZN6photon5waitq10resume_oneEi$=K_cv_notify_one', '--map', r'^@_ZN6photon5waitq10resume_allEi$=K_cv_notify_all',
+    '--blockingc', r'^@_ZN6photon9semaphore18wait_interruptibleEmNS_7TimeoutE$=K_sem_wait_begin,K_sem_wait_end',
+    '--map', r'^@_ZN6photon9semaphore10try_resumeEm$=K_sem_try_resume',
+    '--blockingc', r'^@_ZN6photon12thread_yieldEv$=K_yield_begin,K_yield_end',
+    '--blockingc', r'^@_ZN6photon13thread_usleepENS_7TimeoutE$=K_usleep_begin,K_usleep_end']
+
+def ksjob(name, src, nt, slices, defines, timeout=900, desc='', unwind=4, mem_gb=12, shims=(), preempt=False, stuck_legal=False):
+    return Job(name, src, 'sched', roots=KROOTS, defines=['NT=%d' % nt, 'KN=%d' % nt] + defines, clang=['-mllvm', '-inline-threshold=100000000'],
+               ir2c=KSYNC_IR2C + (['--cs-atomic-only'] if preempt else ['--cs-none']), shims=['libc.c', 'sched.c'] + list(shims),
+               cbmc=['-DNT=%d' % nt, '-DSLICES=%d' % slices] + (['-DVERIF_STUCK_IS_LEGAL'] if stuck_legal else []), unwind=max(unwind, nt + 1),
+               unwindset=['f_sched.1:%d' % (slices + 1)], timeout=timeout, mem_gb=mem_gb, desc=desc,
+               bounds='%d threads, <= %d execution slices, mutex/cv/semaphore as contracts (rt/ksync.h), %s' % (nt, slices, 'pre-emption at atomic operations' if preempt else 'switch at blocking calls'))
 
 _spin_jobs = jobs
 def jobs(tier):
